@@ -5,6 +5,10 @@ N1  `X.ok_or_else(|| E)?` / `X.ok_or(E)?`        ->  `match X { Some(__v) => __v
 N2  `if matches!(X, P) { A } else { B }`           ->  `if let P = X { A } else { B }`           (no guard)
 N3  `(E)`                                          ->  `E` for parenthesised conditions
 N4  `C.extend(I.map(|p| E));`                      ->  `for p in I { C.push(E); }`   (`C.extend(E)` when E is a quote! template)
+N6  `if let Some(p) = I.find(|q| C) { ..; return/continue/break }`  ->  `for p in I { if C[q:=p] { .. } }`   (the body leaves the loop)
+N9  `match X { Some(p) if G => A, _ => B }`       ->  `if let Some(p) = X { if G { A } else { B } } else { B }`
+N7  `I.filter(|a| C).filter_map(|b| B).map(|c| E).collect()`  ->  `{ let mut acc = new(); for x in I { .. acc.push(..) } acc }`
+N10 `let v = X.any(|p| Y.any(|q| C));` (any nesting depth)  ->  `let mut v = false; for p in X { for q in Y { if C { v = true; } } }`
 N5  `W.predicates.extend(X);`                      ->  `for __item in X { W.predicates.push(__item); }`
 """
 
@@ -17,6 +21,54 @@ def _ppath(s, l):
     return {'segs': [{'id': x} for x in s.split('::')], 's': s, 'global': False}
 
 
+def _rename_ident(node, old, new):
+    if isinstance(node, list):
+        return [_rename_ident(x, old, new) for x in node]
+    if not isinstance(node, dict):
+        return node
+    if node.get('k') == 'Path' and 'path' in node and len(node['path'].get('segs', [])) == 1 and node['path']['s'] == old:
+        return _path(new, node.get('l', 0))
+    return {k: (_rename_ident(v, old, new) if not (isinstance(k, str) and k.startswith('_')) else v) for k, v in node.items()}
+
+
+def _any_let(st):
+    """N10: a `let v = <nested any>;` statement as a flag set in nested loops"""
+    if st.get('k') != 'Local' or st.get('init') is None or st.get('else') is not None:
+        return None
+    p = st['pat']
+    while p.get('k') == 'Type':
+        p = p['pat']
+    if p.get('k') != 'Ident' or p.get('mut') or p.get('by_ref'):
+        return None
+    l = st.get('l', 0)
+    loops = []
+    e = st['init']
+    while isinstance(e, dict) and e.get('k') == 'MethodCall' and e.get('method') == 'any' and len(e.get('args', [])) == 1 \
+            and e['args'][0].get('k') == 'Closure' and len(e['args'][0]['params']) == 1:
+        clo = e['args'][0]
+        loops.append((clo['params'][0], e['recv']))
+        e = clo['body']
+        while e.get('k') == 'Block' and len(e['stmts']) == 1 and e['stmts'][0]['k'] == 'Expr' and not e['stmts'][0]['semi']:
+            e = e['stmts'][0]['expr']
+    if not loops or e.get('k') == 'Block':
+        return None
+    name = p['name']
+    assign = {'k': 'Expr', 'semi': True, 'l': l, 'expr': {'k': 'Assign', 'l_': _path(name, l), 'r_': {'k': 'Lit', 'lit': {'k': 'Bool', 'v': True}, 'l': l}, 'l': l}}
+    body = {'k': 'Expr', 'semi': False, 'l': l, 'expr': {'k': 'If', 'cond': e, 'then': {'k': 'Block', 'stmts': [assign], 'l': l}, 'else': None, 'l': l}}
+    for pat, it in reversed(loops):
+        body = {'k': 'Expr', 'semi': False, 'l': l, 'expr': {'k': 'For', 'pat': pat, 'expr': it, 'label': None, 'l': l, 'desugared': 'any',
+                                                           'body': {'k': 'Block', 'stmts': [body], 'l': l}}}
+    decl = dict(st)
+    decl['pat'] = {'k': 'Ident', 'name': name, 'by_ref': False, 'mut': True, 'sub': None, 'l': l}
+    decl['init'] = {'k': 'Lit', 'lit': {'k': 'Bool', 'v': False}, 'l': l}
+    body = dict(body)
+    body['attrs'] = st.get('attrs', [])
+    if isinstance(body['expr'], dict):
+        body['expr'] = dict(body['expr'])
+        body['expr']['attrs'] = st.get('attrs', [])
+    return [decl, body]
+
+
 def norm(n):
     if isinstance(n, list):
         return [norm(x) for x in n]
@@ -24,6 +76,12 @@ def norm(n):
         return n
     n = {k: (norm(v) if not (isinstance(k, str) and k.startswith('_')) else v) for k, v in n.items()}
     k = n.get('k')
+    if k == 'Block' and isinstance(n.get('stmts'), list):
+        out = []
+        for st in n['stmts']:
+            rep = _any_let(st)
+            out.extend(rep if rep is not None else [st])
+        n['stmts'] = out
     if k == 'Try':
         x = n.get('expr')
         if isinstance(x, dict) and x.get('k') == 'MethodCall' and x.get('method') in ('ok_or_else', 'ok_or') and len(x.get('args', [])) == 1:
@@ -73,6 +131,96 @@ def norm(n):
             n['expr'] = loop
             n['semi'] = False
             return n
+    if k == 'MethodCall' and n.get('method') == 'collect' and not n.get('args'):
+        chain = []
+        x = n['recv']
+        ok = True
+        while isinstance(x, dict) and x.get('k') == 'MethodCall' and x.get('method') in ('filter', 'filter_map', 'map'):
+            if len(x.get('args', [])) != 1 or x['args'][0].get('k') != 'Closure' or len(x['args'][0].get('params', [])) != 1:
+                ok = False
+                break
+            chain.append((x['method'], x['args'][0]))
+            x = x['recv']
+        if ok and chain:
+            chain.reverse()
+            l = n.get('l', 0)
+            acc = '__collected'
+
+            def let(pat, init):
+                return {'k': 'Local', 'pat': pat, 'ty': None, 'init': init, 'else': None, 'attrs': [], 'l': l}
+
+            def ident(name, mut=False):
+                return {'k': 'Ident', 'name': name, 'by_ref': False, 'mut': mut, 'sub': None, 'l': l}
+
+            def body_of(clo):
+                return clo['body']
+            cur = '__it0'
+            stmts_stack = []      # list of (wrapper builder) applied innermost last
+            inner = []            # statements of the current nesting level
+            levels = [inner]
+            wrappers = []
+            for i, (m, clo) in enumerate(chain):
+                p = clo['params'][0]
+                if p.get('k') == 'Type':
+                    p = p['pat']
+                levels[-1].append(let(p, _path(cur, l)))
+                nxt = '__it%d' % (i + 1)
+                if m == 'map':
+                    levels[-1].append(let(ident(nxt), body_of(clo)))
+                    cur = nxt
+                elif m == 'filter_map':
+                    new_level = []
+                    some_pat = {'k': 'TupleStruct', 'path': _ppath('Some', l), 'qself': False, 'elems': [ident(nxt)], 'l': l}
+                    levels[-1].append({'k': 'Expr', 'semi': False, 'l': l, 'expr': {'k': 'If', 'cond': {'k': 'Let', 'pat': some_pat, 'expr': body_of(clo), 'l': l},
+                                                                                   'then': {'k': 'Block', 'stmts': new_level, 'l': l}, 'else': None, 'l': l}})
+                    levels.append(new_level)
+                    cur = nxt
+                else:   # filter: the item itself goes on
+                    new_level = []
+                    levels[-1].append({'k': 'Expr', 'semi': False, 'l': l, 'expr': {'k': 'If', 'cond': body_of(clo), 'then': {'k': 'Block', 'stmts': new_level, 'l': l}, 'else': None, 'l': l}})
+                    levels.append(new_level)
+            levels[-1].append({'k': 'Expr', 'semi': True, 'l': l, 'expr': {'k': 'MethodCall', 'recv': _path(acc, l), 'method': 'push', 'args': [_path(cur, l)], 'turbofish': None, 'l': l}})
+            loop = {'k': 'For', 'pat': ident('__it0'), 'expr': x, 'label': None, 'l': l, 'desugared': 'collect',
+                    'body': {'k': 'Block', 'stmts': inner, 'l': l}}
+            init = {'k': 'Call', 'func': _path('Default::default', l), 'args': [], 'l': l}
+            return {'k': 'Block', 'l': l, 'desugared': 'collect', 'stmts': [
+                let(ident(acc, True), init),
+                {'k': 'Expr', 'expr': loop, 'semi': False, 'l': l},
+                {'k': 'Expr', 'expr': _path(acc, l), 'semi': False, 'l': l}]}
+    if k == 'Match' and len(n.get('arms', [])) == 2:
+        a0, a1 = n['arms']
+        if a0.get('guard') is not None and a1.get('guard') is None and a1['pat'].get('k') == 'Wild' and a0['pat'].get('k') == 'TupleStruct' \
+                and a0['pat']['path']['s'] == 'Some':
+            import copy
+            l = n.get('l', 0)
+
+            def blk(b):
+                return b if b.get('k') == 'Block' else {'k': 'Block', 'stmts': [{'k': 'Expr', 'expr': b, 'semi': False, 'l': b.get('l', l)}], 'l': b.get('l', l)}
+            inner = {'k': 'If', 'cond': a0['guard'], 'then': blk(a0['body']), 'else': blk(copy.deepcopy(a1['body'])), 'l': l}
+            return {'k': 'If', 'cond': {'k': 'Let', 'pat': a0['pat'], 'expr': n['expr'], 'l': l}, 'desugared': 'guarded-match', 'l': l,
+                    'then': {'k': 'Block', 'stmts': [{'k': 'Expr', 'expr': inner, 'semi': False, 'l': l}], 'l': l},
+                    'else': blk(copy.deepcopy(a1['body']))}
+    if k == 'If' and n.get('else') is None and isinstance(n.get('cond'), dict) and n['cond'].get('k') == 'Let':
+        c = n['cond']
+        pat, ex = c['pat'], c['expr']
+        if pat.get('k') == 'TupleStruct' and pat['path']['s'] == 'Some' and len(pat['elems']) == 1 and pat['elems'][0].get('k') == 'Ident' \
+                and ex.get('k') == 'MethodCall' and ex.get('method') == 'find' and len(ex.get('args', [])) == 1 and ex['args'][0].get('k') == 'Closure' \
+                and len(ex['args'][0]['params']) == 1:
+            q = ex['args'][0]['params'][0]
+            while q.get('k') in ('Ref', 'Type'):
+                q = q['pat']
+            then = n['then']
+            last = then['stmts'][-1] if then.get('stmts') else None
+            diverges = last is not None and last['k'] == 'Expr' and last['expr'].get('k') in ('Return', 'Break', 'Continue')
+            if q.get('k') == 'Ident' and diverges:
+                pname = pat['elems'][0]['name']
+                cond = _rename_ident(ex['args'][0]['body'], q['name'], pname)
+                while cond.get('k') == 'Block' and len(cond['stmts']) == 1 and cond['stmts'][0]['k'] == 'Expr' and not cond['stmts'][0]['semi']:
+                    cond = cond['stmts'][0]['expr']
+                l = n.get('l', 0)
+                inner = {'k': 'If', 'cond': cond, 'then': then, 'else': None, 'l': l}
+                return {'k': 'For', 'pat': pat['elems'][0], 'expr': ex['recv'], 'label': None, 'l': l, 'desugared': 'find',
+                        'body': {'k': 'Block', 'stmts': [{'k': 'Expr', 'expr': inner, 'semi': False, 'l': l}], 'l': l}}
     if k == 'If':
         c = n.get('cond')
         while isinstance(c, dict) and c.get('k') == 'Paren':
